@@ -52,6 +52,10 @@ type fnSummary struct {
 	full     map[string]Sort
 	retFresh []bool
 	done     bool
+	// ghost globals the function may change (through contracts of what it calls, or its own ghostentry clauses);
+	// anyGhost: it makes a call whose target is not known statically
+	ghosts   map[string]bool
+	anyGhost bool
 }
 
 func (s *fnSummary) visible(withFree bool) map[string]Sort {
@@ -117,7 +121,7 @@ func (v *Verifier) summaryOf(fn *ssa.Function) *fnSummary {
 }
 
 func (v *Verifier) newSummary(fn *ssa.Function) *fnSummary {
-	s := &fnSummary{always: map[string]Sort{}, full: map[string]Sort{}}
+	s := &fnSummary{always: map[string]Sort{}, full: map[string]Sort{}, ghosts: map[string]bool{}}
 	s.byParam = make([]map[string]Sort, len(fn.Params))
 	for i := range s.byParam {
 		s.byParam[i] = map[string]Sort{}
@@ -158,6 +162,11 @@ func (v *Verifier) computeSummary(fn *ssa.Function, visiting map[*ssa.Function]b
 		return s
 	}
 	c := &sumCtx{v: v, fn: fn, sum: s, visiting: visiting, cellMemo: map[*ssa.Alloc]origin{}, cellBusy: map[*ssa.Alloc]bool{}, valBusy: map[ssa.Value]bool{}}
+	if fc := v.contracts.forFunc(fn); fc != nil {
+		for _, ga := range fc.GhostEntry {
+			c.ghostTargets([]*Expr{ga.LHS})
+		}
+	}
 	for _, b := range fn.Blocks {
 		for _, ins := range b.Instrs {
 			c.instr(ins)
@@ -197,6 +206,61 @@ func (c *sumCtx) record(o origin, keys map[string]Sort) {
 		c.add(c.sum.byFree[o.idx], keys)
 	default:
 		c.add(c.sum.always, keys)
+	}
+}
+
+// ghostTargets records the ghost globals named by modifies targets (g, g[*], g.f ...).
+func (c *sumCtx) ghostTargets(es []*Expr) {
+	var root func(e *Expr) string
+	root = func(e *Expr) string {
+		switch e.Op {
+		case "id":
+			return e.Name
+		case "star", "field", "index", "paren":
+			if len(e.Args) > 0 {
+				return root(e.Args[0])
+			}
+		}
+		return ""
+	}
+	for _, e := range es {
+		if e.Op == "id" && e.Name == "anything" {
+			c.markAnyGhost()
+			continue
+		}
+		if n := root(e); n != "" && c.v.contracts.isGhostGlobal(n) {
+			if !c.sum.ghosts[n] {
+				c.sum.ghosts[n] = true
+				c.v.sumChanged = true
+			}
+		}
+	}
+}
+
+func (c *sumCtx) markAnyGhost() {
+	if !c.sum.anyGhost {
+		c.sum.anyGhost = true
+		c.v.sumChanged = true
+	}
+}
+
+func (c *sumCtx) contractGhosts(fc *FuncContract) {
+	for _, cl := range fc.Clauses {
+		if cl.Kind == "modifies" && !cl.IsLoop {
+			c.ghostTargets(cl.Exprs)
+		}
+	}
+}
+
+func (c *sumCtx) mergeGhosts(cs *fnSummary) {
+	for g := range cs.ghosts {
+		if !c.sum.ghosts[g] {
+			c.sum.ghosts[g] = true
+			c.v.sumChanged = true
+		}
+	}
+	if cs.anyGhost {
+		c.markAnyGhost()
 	}
 }
 
@@ -258,6 +322,7 @@ func (c *sumCtx) instr(ins ssa.Instruction) {
 			}
 		}
 		c.record(origin{kind: oFresh}, cs.full)
+		c.mergeGhosts(cs)
 	case ssa.CallInstruction:
 		c.call(t)
 	}
@@ -299,6 +364,15 @@ func (c *sumCtx) call(t ssa.CallInstruction) {
 		}
 	}
 	if callee == nil {
+		if cc.IsInvoke() {
+			key := typeName(cc.Value.Type()) + "." + cc.Method.Name()
+			if fc := v.contracts.get(key); fc != nil {
+				c.contractGhosts(fc)
+			}
+		} else {
+			// a func value: its contract, if any, is not known here
+			c.markAnyGhost()
+		}
 		// dynamic call: closures created in this function are accounted for where they are made; pointer / slice
 		// arguments may be written (module structs assumed untouched by dynamic callees, as in havocPointeesPolicy)
 		for _, a := range cc.Args {
@@ -318,7 +392,10 @@ func (c *sumCtx) call(t ssa.CallInstruction) {
 		return
 	}
 	fc := v.contracts.forFunc(callee)
-	if !isModulePkg(fnPkg(callee)) && fc != nil && fc.hasCallContract() && !hasModifies(fc) {
+	if fc != nil && hasModifies(fc) {
+		c.contractGhosts(fc)
+	}
+	if fc != nil && fc.hasCallContract() && !hasModifies(fc) && (fc.Trusted || !isModulePkg(fnPkg(callee))) {
 		// assumed contract on foreign code without a modifies clause: modifies nothing visible (as at the call site)
 		return
 	}
@@ -340,6 +417,9 @@ func (c *sumCtx) call(t ssa.CallInstruction) {
 			}
 		}
 		c.record(origin{kind: oFresh}, cs.full)
+		if fc == nil || !hasModifies(fc) {
+			c.mergeGhosts(cs)
+		}
 		return
 	}
 	for _, a := range cc.Args {
@@ -586,6 +666,18 @@ func (c *sumCtx) cellOrigin(a *ssa.Alloc) origin {
 func (v *Verifier) havocBySummary(s *State, fn *ssa.Function, prefix string, withFree bool) {
 	sum := v.summaryOf(fn)
 	vis := sum.visible(withFree)
+	for _, g := range sortedKeys(s.ghost) {
+		if strings.HasPrefix(g, "$") {
+			continue
+		}
+		// ghost globals are package-scoped: a call whose target is unknown can change those of the callee's own
+		// package; those of other packages only through contracts that name them (or closures handed over, which are
+		// accounted for at the call site)
+		if sum.ghosts[g] || (sum.anyGhost && v.contracts.ghostInScope(g, shortPkg(fnPkg(fn).Path()))) {
+			s.ghost[g] = freshValue("Hg!"+g, s.ghost[g].T)
+			s.assumeAllocated(s.ghost[g])
+		}
+	}
 	if len(sum.full) == 0 {
 		return
 	}
